@@ -370,7 +370,9 @@ func (p *seqSorter[T]) Less(i, j int) bool { return p.ord.Less(p.seq[i], p.seq[j
 func (p *seqSorter[T]) Swap(i, j int)      { p.seq[i], p.seq[j] = p.seq[j], p.seq[i] }
 
 func Sort[T any](r fp.Seq[T], ord fp.Ord[T]) fp.Seq[T] {
-	ns := r.Concat(nil)
+	// copy first: Concat(nil) returns the receiver itself
+	ns := make(fp.Seq[T], len(r))
+	copy(ns, r)
 	sort.Sort(&seqSorter[T]{ns, ord})
 	return ns
 }
